@@ -44,7 +44,8 @@ MCTemplates == <<
   T({3, 4},       <<S(-6, NONE)>>,               1, 2, FALSE),      \* centre legal, lower edge inside the guard band
   T({1, 2},       <<S(NONE, 4), S(5, 2)>>,       1, 2, FALSE),      \* the M-only slot covers the need; the fixed slot may be busy
   T({1, 2},       <<S(-3, 2)>>,                  1, 2, FALSE),      \* leaves a two-index hole at the bottom of the band
-  T({1, 2},       <<S(NONE, 2), S(NONE, 1)>>,    3, 1, FALSE)       \* two free-N slots of different widths: each takes ITS lowest position
+  T({1, 2},       <<S(NONE, 2), S(NONE, 1)>>,    3, 1, FALSE),      \* two free-N slots of different widths: each takes ITS lowest position
+  T({1, 2},       <<S(-5, NONE), S(NONE, NONE)>>, 3, 2, FALSE)      \* N fixed with little room, then a free slot: the two must not overlap
 >>
 
 \* emission for the spec -> code replay (B2): one JSON line per complete history
